@@ -350,20 +350,68 @@ def run(ctx):
     # ------------------------------------------------------------ R01k
     cmeth = co.methods('LatexNodesCollector')
     pp = cmeth.get('push_pending_chars')
-    t = unparse(pp) if pp is not None else ''
-    ok = 'self._pending_chars += chars' in t and 'if self._pending_chars_pos is None:' in t and \
-        'self._pending_chars_pos = pos' in t
-    ctx.decide('R01k', ok, co, pp or co.cls('LatexNodesCollector'),
-               'append text; start position set by the first push only',
-               'push_pending_chars does not append in order / overwrites the start position',
-               construct='push_pending_chars')
     fp = cmeth.get('flush_pending_chars')
-    t = unparse(fp) if fp is not None else ''
-    ok = "self._pending_chars = ''" in t and 'self._pending_chars_pos = None' in t and \
-        'charspos, chars = (self._pending_chars_pos, self._pending_chars)' in t
-    ctx.decide('R01k', ok, co, fp or co.cls('LatexNodesCollector'),
-               'flush emits (start, text) and resets both',
-               'flush_pending_chars does not emit the pending (position, text) pair and reset it',
+    if pp is None or fp is None:
+        raise AnalysisError('anchor vanished: push_pending_chars / flush_pending_chars')
+    PC, PP = 'self._pending_chars', 'self._pending_chars_pos'
+    # push: on every path the text grows by the chars parameter at the end; the start position
+    # becomes the pos parameter only on a path where it was None, otherwise it is unchanged
+    cpar, ppar = [a.arg for a in pp.args.args][1:3]
+    why = None
+    try:
+        ends = [c for c in symex.Walker(want_exits=True, track_attrs=(PC, PP)).run_block(pp.body)
+                if c.kind in ('end', 'return')]
+    except symex.TooManyPaths as e:
+        ends, why = [], str(e)
+    for cs in ends:
+        tv, pv = cs.env.get(PC), cs.env.get(PP)
+        if not (isinstance(tv, ast.BinOp) and isinstance(tv.op, ast.Add) and unparse(tv.left) == PC
+                and unparse(tv.right) == cpar):
+            why = 'the pending text becomes %s, not %s + %s' % (short(tv) if tv is not None else 'unchanged', PC, cpar)
+        facts = set()
+        for t_, pol in cs.conds:
+            for a, ap in symex._atoms(t_, pol):
+                facts.add((unparse(a), ap))
+        was_none = (PP + ' is None', True) in facts or (PP + ' is not None', False) in facts
+        if pv is None:
+            if was_none:
+                why = 'the start position stays None on the first push'
+        elif unparse(pv) == ppar:
+            if not was_none:
+                why = 'the start position is overwritten by a later push (path [%s])' % ' & '.join(cs.cond_src())
+        elif unparse(pv) != PP:
+            why = 'the start position becomes %s' % short(pv)
+    if not ends and why is None:
+        why = 'no exit found'
+    ctx.decide('R01k', why is None, co, pp, 'append text; start position set by the first push only',
+               'push_pending_chars: %s: the chars node built from the pending text starts at the wrong '
+               'place or has its text out of order' % why, construct='push_pending_chars')
+    # flush: the node carries the pending (position, text) pair as it was, and both are reset
+    why = None
+    try:
+        w_ = symex.Walker(is_sink=lambda c: call_name(c) == 'make_node', want_exits=True, track_attrs=(PC, PP))
+        cases = w_.run_block(fp.body)
+    except symex.TooManyPaths as e:
+        cases, why = [], str(e)
+    mk = [c for c in cases if c.kind == 'call']
+    if not mk and why is None:
+        why = 'no chars node is built'
+    for cs in mk:
+        ch, po = kwarg(cs.sub, 'chars'), kwarg(cs.sub, 'pos')
+        if ch is None or unparse(ch) != PC or po is None or unparse(po) != PP:
+            why = 'the node gets chars=%s pos=%s, not the pending text and its start position' % (
+                short(ch), short(po))
+    for cs in [c for c in cases if c.kind in ('end', 'return')]:
+        built = any(isinstance(d_, ast.Call) and call_name(d_) == 'make_node'
+                    for d_ in cs.env.get('#def', {}).values())
+        if not built:
+            continue
+        tv, pv = cs.env.get(PC), cs.env.get(PP)
+        if not (isinstance(tv, ast.Constant) and tv.value == '' and isinstance(pv, ast.Constant) and pv.value is None):
+            why = 'after building the node the pending pair is (%s, %s), not reset to (None, \'\')' % (
+                short(pv) if pv is not None else 'unchanged', short(tv) if tv is not None else 'unchanged')
+    ctx.decide('R01k', why is None, co, fp, 'flush emits (start, text) and resets both',
+               'flush_pending_chars: %s: text is emitted twice or at the wrong position' % why,
                construct='flush_pending_chars')
     ctx.assume('the spans produced by different cooperating parsers tile the input (who owns the '
                'whitespace between two constructs) is a run-time relation and is not decided')
